@@ -154,3 +154,48 @@ for _tag, _f, _d, _p, _want in (("explicit_inputs", "F", "D", None, ("F", "D")),
 for _tag, _f, _d, _p in (("nothing_given", None, None, None), ("framework_only", "F", None, None), ("data_only", None, "D", None), ("project_without_data", None, None, "no_data"), ("project_without_framework", None, None, "no_framework")):
     CONTRACTS["programs:ProgramSet._normalize_inputs#%s" % _tag] = dict(
         schema=schema, make_env=_env_norm(_f, _d, _p), raises={"Exception": "True"}, raises_props=["C18"], ensures=[], defined_props=["C16", "C18"])
+
+
+# ---- Program.__init__ and ProgramSet.add_program (C16 / C11): a new program has no targets, spending and unit cost in the program set's currency (the unit cost per person, i.e.
+# one-off, until stated otherwise), a baseline spending of 0 and empty series for capacity constraint, saturation and coverage; adding a program under a used code name is refused
+def _env_prog_init(it):
+    from pyvc.interp import PyObjV
+    from pyvc import source
+
+    return {"self": PyObjV("Program", source.load("programs"), {}), "name": "prog", "label": None, "target_pops": None, "target_comps": None, "currency": "EUR"}
+
+
+CONTRACTS["programs:Program.__init__"] = dict(
+    schema=schema, make_env=_env_prog_init, concrete_new=["TimeSeries"], call_stubs={"NamedItem.__init__": (lambda it, *a, **k: None), "sc.now": (lambda it, *a, **k: "now")},
+    ensures=[("C16.a_new_program_is_named_and_targets_nothing", "self.name == 'prog' and self.label == 'prog' and self.target_pops == [] and self.target_comps == []"),
+             ("C16+C11.its_series_are_empty_in_the_program_sets_currency_with_a_baseline_of_zero",
+              "self.spend_data.units == 'EUR/year' and self.unit_cost.units == 'EUR/person (one-off)' and self.baseline_spend.units == 'EUR/year' and self.baseline_spend.assumption == 0.0 and self.capacity_constraint.units == 'people/year' "
+              "and self.coverage.units == 'people/year' and self.saturation.units == 'N.A.' and len(self.spend_data.t) == 0 and self.spend_data.assumption is None and len(self.unit_cost.t) == 0 and self.unit_cost.assumption is None")],
+    defined_props=["C16", "C11"])
+
+
+def _env_add_prog(code):
+    def make(it):
+        from pyvc.interp import PyObjV
+        from pyvc import source
+
+        pm = source.load("programs")
+        old = PyObjV("Program", pm, {"name": "old", "label": "Old"})
+        return {"self": PyObjV("ProgramSet", pm, {"name": "ps", "currency": "EUR", "programs": {"old": old}}), "code_name": code, "full_name": "A new program", "OLD": old}
+
+    return make
+
+
+def _ghost_program(it, name=None, label=None, currency=None, **k):
+    from pyvc.interp import PyObjV
+    from pyvc import source
+
+    return PyObjV("Program", source.load("programs"), {"name": name, "label": label, "CURRENCY": currency})
+
+
+CONTRACTS["programs:ProgramSet.add_program#new_code_name"] = dict(
+    schema=schema, make_env=_env_add_prog("new"), call_stubs={"Program": _ghost_program},
+    ensures=[("C16.the_program_is_added_last_in_the_program_sets_currency_and_the_others_are_kept", "list(self.programs.keys()) == ['old', 'new'] and self.programs['old'] is OLD and self.programs['new'].label == 'A new program' and self.programs['new'].CURRENCY == 'EUR'")],
+    defined_props=["C16"])
+CONTRACTS["programs:ProgramSet.add_program#code_name_already_used"] = dict(
+    schema=schema, make_env=_env_add_prog("old"), call_stubs={"Program": _ghost_program}, raises={"Exception": "True"}, raises_props=["C16", "C18"], ensures=[], defined_props=["C16"])
